@@ -44,11 +44,12 @@ type EngineSpec struct {
 	Funcs      bool `json:"funcs,omitempty"`      // register the harness FuncMap
 	Proc       bool `json:"proc,omitempty"`       // register the harness NodeProcessor (per-render state: counts nodes, stamps the count)
 	// which optional fs interfaces the simulated FS implements
-	ReadFileFS bool      `json:"read_file_fs,omitempty"`
-	StatFS     bool      `json:"stat_fs,omitempty"`
-	ReadDirFS  bool      `json:"read_dir_fs,omitempty"`
-	PathFill   int       `json:"path_fill,omitempty"` // distinct throw-away paths resolved before the run (fills the global path cache)
-	BaseFill   *DataSpec `json:"base_fill,omitempty"` // data filled into the base template at construction (Base.* entries render with it)
+	ReadFileFS  bool      `json:"read_file_fs,omitempty"`
+	StatFS      bool      `json:"stat_fs,omitempty"`
+	ReadDirFS   bool      `json:"read_dir_fs,omitempty"`
+	PathFill    int       `json:"path_fill,omitempty"`    // distinct throw-away paths resolved before the run (fills the global path cache)
+	MtimeJitter bool      `json:"mtime_jitter,omitempty"` // every Stat reports a later modification time (a file that is being rewritten continuously)
+	BaseFill    *DataSpec `json:"base_fill,omitempty"`    // data filled into the base template at construction (Base.* entries render with it)
 }
 
 // FileSpec is one simulated file with its immutable versions.
@@ -119,7 +120,7 @@ type DataSpec struct {
 
 // WriterSpec is the destination writer: FailAt < 0 never fails; otherwise the
 // write that would carry byte offset FailAt fails in the given Form:
-// 0 = (0, err), 1 = (n < len, err), 2 = (len, err).
+// 0 = (0, err), 1 = (n < len, err), 2 = (len, err), 3 = (0, err) once, later writes succeed again (transient).
 type WriterSpec struct {
 	FailAt int `json:"fail_at"`
 	Form   int `json:"form,omitempty"`
